@@ -252,7 +252,19 @@ def evaluate(c):
                     # the solver keeps the raw coordinates of fuzzily joined ends (its impedance moves by ~500 x offset/m),
                     # the written input carries the consolidated ones: 1e-10 m offsets leave ~1e-6, rotated ones more
                     tol = 5e-5
-                if np.max(np.abs(z1 - z2) / np.abs(z1)) > tol:
+                # the feed impedance of a tapered wire and of its one-segment-wire emulation agree only inside the modelling
+                # rules: a junction whose two segments differ by more than 2.1 (fine end of a taper meeting a coarse wire) is
+                # the listed C06 finding (taper-split), not a property of the writer
+                ratio = 1.0
+                for p_ in m.pulses:
+                    if p_.geo[0] is not p_.geo[1]:
+                        l0 = np.linalg.norm(np.array(p_.ends[0], float) - np.array(p_.point, float))
+                        l1 = np.linalg.norm(np.array(p_.ends[1], float) - np.array(p_.point, float))
+                        ratio = max(ratio, l0 / l1, l1 / l0)
+                tapered = any(getattr(g, 'segtype', 0) for g in m.geo)
+                if tapered and ratio > 2.1:
+                    pass
+                elif np.max(np.abs(z1 - z2) / np.abs(z1)) > tol:
                     ins = any(type(l).__name__ == 'Insulation_Load' and l.epsilon_r != 1 for l in m.loads)
                     viol.append(('REBUILT-Z' + ('-insulation' if ins else ''), '%s: feed impedance %s, rebuilt from the BASIC input %s' % (label, z1, z2)))
         except ValueError as e:
